@@ -33,14 +33,8 @@ Definition same_kind (a b : list_kind) : bool :=
 Definition in_list (lk : option list_kind) (k : list_kind) : bool :=
   match lk with Some k' => same_kind k' k | None => false end.
 
-(* the inline code of e ends with a Tis instruction *)
-Fixpoint ends_in_tis (e : expr) : bool :=
-  match e with
-  | EUn UTis _ => true
-  | EGroup x => ends_in_tis x
-  | _ => false
-  end.
-Definition logical_ends (r : expr) : nat := if ends_in_tis r then 1 else 2.
+(* the body of the right operand of `&&` / `||` ends with Tis, JumpTo join *)
+Definition logical_ends (r : expr) : nat := 2.
 
 (* sizes of a chain: inline, inline jump entries, arms block (code, entries),
    item out-of-line block (code, entries), number of conditional items *)
@@ -173,7 +167,7 @@ Fixpoint compC (inchain : bool) (cont : nat) (lk : option list_kind) (e : expr)
       let jr := j + sji a in                                    (* entry of the right operand *)
       let jj := jr + 1 in
       let fr := to_frag (compC false cont None r ob jb 0 0 (ob + si b + logical_ends r) (jb + sji b) 0) in
-      let ends := (if ends_in_tis r then [] else [ins I_Tis]) ++ [insn I_JumpTo jj] in
+      let ends := [ins I_Tis; insn I_JumpTo jj] in
       of_frag (mkFrag (f_inl fl ++ [insn i jr])
                       (f_inl fr ++ ends ++ f_ool fr ++ f_ool fl)
                       (f_ji fl ++ [ob; pc + si a + 1])
